@@ -123,10 +123,20 @@ def noise(r, others, tmp):
 
     log = []
     for _ in range(r.randint(5, 30)):
-        op = r.choice(["parse", "badparse", "verify", "gen", "gen", "encode", "reflect"])
+        op = r.choice(["parse", "badparse", "verify", "gen", "gen", "encode", "reflect", "badmodule"])
         path = r.choice(others)
         log.append(op)
         try:
+            if op == "badmodule":
+                # a project whose imported module (named like the target's: part.fcp) is well-formed text with a
+                # fault the transformer / the importer finds: the parse fails INSIDE the import
+                d = tempfile.mkdtemp(prefix="badmod", dir=tmp)
+                body = r.choice(['struct Z { a @0: MissingType, }', 'struct Z { a @0: u8 | nosuchparam(1), }', 'enum E { }', 'mod nowhere_at_all;',
+                                 'struct Z { a @1.5: u8, }'])
+                open(os.path.join(d, "part.fcp"), "w").write(('version: "3"\n' if r.random() < 0.8 else 'version: "2"\n') + body + "\n")
+                open(os.path.join(d, "main.fcp"), "w").write('version: "3"\nmod part;\nstruct Y { b @0: u8, }\n')
+                parse(os.path.join(d, "main.fcp"))
+                continue
             if op == "badparse":
                 txt = open(path).read()
                 get_fcp_from_string(txt[: r.randrange(len(txt))])
@@ -148,6 +158,20 @@ def noise(r, others, tmp):
         except Exception:
             pass
     return log
+
+
+def same_length_variant(text, r):
+    """Another schema of exactly the same length, with every declaration at the same offsets: pairs of neighbouring
+    field ids of equal digit count exchanged, single-digit enumerator values and integer widths changed."""
+    ids = [m for m in re.finditer(r"@(\d+)", text)]
+    out = list(text)
+    for a, b in zip(ids[::2], ids[1::2]):
+        if len(a.group(1)) == len(b.group(1)) and a.group(1) != b.group(1) and r.random() < 0.7:
+            out[a.start(1):a.end(1)], out[b.start(1):b.end(1)] = list(b.group(1)), list(a.group(1))
+    t = "".join(out)
+    t = re.sub(r"= ([1-7]),", lambda m: "= %d," % (int(m.group(1)) + 1) if r.random() < 0.5 else m.group(0), t)
+    t = re.sub(r"\b([ui])([2-8])\b", lambda m: "%s%d" % (m.group(1), int(m.group(2)) - 1) if r.random() < 0.5 else m.group(0), t)
+    return t
 
 
 def main():
@@ -191,6 +215,23 @@ def main():
                             shutil.rmtree(shared, ignore_errors=True)
                             shutil.copytree(os.path.dirname(path), shared)
                             src = os.path.join(shared, os.path.basename(path))
+                            if rnd % 4 == 1:
+                                # ... and before that, the file at that very path held ANOTHER revision of the schema with
+                                # every declaration at the same offsets (ids exchanged, values and widths changed),
+                                # which this process generated from as well
+                                orig = open(src, encoding="utf-8").read()
+                                var = same_length_variant(orig, random.Random(rnd * 7919 + len(orig)))
+                                if var != orig and len(var) == len(orig):
+                                    open(src, "w", encoding="utf-8").write(var)
+                                    try:
+                                        rv = parse(src)
+                                        if rv.is_ok():
+                                            file_map(g, rv.unwrap(), tmp)
+                                            out["same_offset_revisions_generated_first"] = out.get("same_offset_revisions_generated_first", 0) + 1
+                                        del rv
+                                    except Exception:
+                                        pass
+                                    open(src, "w", encoding="utf-8").write(orig)
                         res = parse(src)
                         if res.is_err():
                             m = {"<error>": repr(res.err())[:200]}
